@@ -321,6 +321,16 @@ class Canon:
                 items = list(g.iter.elts)
             if items is not None:
                 return ast.List([self._fold(_replace_name(e.elt, g.target.id, it_)) for it_ in items], ast.Load())
+        if isinstance(e, ast.BinOp) and isinstance(e.op, ast.Mod) and isinstance(e.left, ast.Constant) and isinstance(e.left.value, str) and e.left.value.count("%") == 1 \
+                and e.left.value.count("%s") == 1 and not isinstance(e.right, (ast.Tuple, ast.Dict, ast.Constant)):
+            # "OP_%s" % t  is  "OP_" + t  for the strings it is used with
+            a_, b_ = e.left.value.split("%s")
+            out = e.right
+            if a_:
+                out = ast.BinOp(ast.Constant(a_), ast.Add(), out)
+            if b_:
+                out = ast.BinOp(out, ast.Add(), ast.Constant(b_))
+            return out
         if isinstance(e, ast.BinOp) and isinstance(e.op, ast.Mod) and isinstance(e.left, ast.Constant) and isinstance(e.left.value, str) \
                 and (isinstance(e.right, ast.Constant) or (isinstance(e.right, ast.Tuple) and all(isinstance(x, ast.Constant) for x in e.right.elts))):
             try:
